@@ -24,8 +24,10 @@ States are written `S s l B C i j` = `s` with window `l`, break stack `B`, conti
 Not covered (Stage 4): auto-var leaves in conditions, `switch` on an auto-var command, `value(…)`
 comparison values, inline strings / `moves()` (implicit data), `poryswitch` statements.
 -/
-namespace Pory.P1
+namespace Pory.StmtG
 open Pory Pory.Parser Pory.C02P Pory.C10b Pory.SwitchParse Pory.TopParse
+open Pory.C14b (swVal)
+open Pory.C11b (operandName badPosMsg autoFinish epv_auto Form printAuto autoLeafT leftSideMsg)
 
 def S (s : PState) (l : List Tok) (B C : List Nat) (i j : Nat) : PState :=
   { s with toks := l, breakStack := B, continueStack := C, nextSid := i, nextCmdId := j }
@@ -68,6 +70,121 @@ theorem bf {a b : TT} (h : a ≠ b) : (a == b) = false := beq_eq_false_iff_ne.mp
 
 theorem bnt {a b : TT} (h : a ≠ b) : (a != b) = true := bne_iff_ne.mpr h
 theorem bnf {a b : TT} (h : a = b) : (a != b) = false := by simp [h]
+
+/-- An error of the leaf parser is the error of the condition parser. -/
+theorem pb_leaf_err (env : Env) (sn : String) (neg : Bool) (f : Nat) (s : PState) (pre a b : Tok)
+    (tl : List Tok) (e : PFail)
+    (hleaf : (parseLeafBooleanExpression env sn f).run (st s (pre :: a :: b :: tl)) = .error e)
+    (ha : a.type ≠ .LPAREN) (hb : a.type = .NOT → b.type ≠ .LPAREN) :
+    (parseBooleanExpression env sn false neg (f + 1)).run (st s (pre :: a :: b :: tl)) = .error e := by
+  rw [parseBooleanExpression]
+  by_cases hn : a.type = .NOT
+  · have hb' := hb hn
+    cases neg <;> simp [hn, hb', hleaf]
+  · cases neg <;> simp [ha, hn, hleaf]
+
+theorem autoPosBad_none {av : AutoVar} {n : Nat} (h : autoPosBad av n = none) : C11b.PosOK av n := by
+  intro pos hp
+  unfold autoPosBad at h
+  rw [hp] at h
+  simp only at h
+  split at h
+  · cases h
+  · rename_i hc
+    simp only [Bool.or_eq_true, decide_eq_true_eq, not_or, Int.not_lt] at hc
+    omega
+
+theorem autoPosBad_some {av : AutoVar} {n : Nat} {pos : Int} (h : autoPosBad av n = some pos) :
+    av.argPos = some pos ∧ (pos < 0 ∨ pos ≥ (n : Int)) := by
+  unfold autoPosBad at h
+  cases hp : av.argPos with
+  | none => rw [hp] at h; cases h
+  | some p =>
+    rw [hp] at h
+    simp only at h
+    split at h
+    · rename_i hc
+      cases h
+      simp only [Bool.or_eq_true, decide_eq_true_eq] at hc
+      exact ⟨rfl, by omega⟩
+    · cases h
+
+/-- **Conditions.** `parseBooleanExpression` on a printed condition: the tree and the command id after it,
+or the located error of an auto-var leaf (not a configured command / bad argument position). -/
+theorem cond_S (env : Env) (sn : String) (s : PState) (B C : List Nat) (i j : Nat) (c : SCond)
+    (pre rp : Tok) (rest : List Tok) (hc : swfCond c = true) (hrp : rp.type = .RPAREN) (fuel : Nat)
+    (hf : needCond c ≤ fuel) :
+    (parseBooleanExpression env sn false false fuel).run (S s (pre :: (printCond c ++ rp :: rest)) B C i j) =
+      match elabCond env (substC s.constants) c j with
+      | .error e => .error e
+      | .ok (t, j0) => .ok ((t, {}), S s (rp :: rest) B C i j0) := by
+  cases c with
+  | plain g => exact bool_S env sn s B C i j g pre rp rest hrp fuel hf
+  | auto fm name lp a0 more rp' =>
+    simp only [swfCond, Bool.and_eq_true, beq_iff_eq, decide_eq_true_eq, List.all_eq_true] at hc
+    obtain ⟨⟨⟨⟨h1, h2⟩, h3⟩, h4⟩, h5⟩ := hc
+    simp only [needCond] at hf
+    obtain ⟨f, rfl⟩ : ∃ f, fuel = f + 1 := ⟨fuel - 1, by omega⟩
+    -- the first two tokens of the leaf
+    have hshape : ∃ a b tl, printCond (.auto fm name lp a0 more rp') ++ rp :: rest = a :: b :: tl ∧
+        a.type ≠ .LPAREN ∧ (a.type = .NOT → b.type ≠ .LPAREN) := by
+      cases fm with
+      | bare =>
+        exact ⟨name, lp, a0 ++ (printMore more ++ rp' :: (Form.bare.post ++ rp :: rest)),
+          by simp [printCond, printAuto, printCmd, Form.pre], by simp [h1], by simp [h1]⟩
+      | cmp p1 p2 l1 op v =>
+        exact ⟨name, lp, a0 ++ (printMore more ++ rp' :: ((Form.cmp p1 p2 l1 op v).post ++ rp :: rest)),
+          by simp [printCond, printAuto, printCmd, Form.pre], by simp [h1], by simp [h1]⟩
+      | neg p l =>
+        exact ⟨tkp p .NOT l, name,
+          lp :: (a0 ++ (printMore more ++ rp' :: ((Form.neg p l).post ++ rp :: rest))),
+          by simp [printCond, printAuto, printCmd, Form.pre], by simp, by simp [h1]⟩
+    obtain ⟨a, b, tl, hsh, ha, hb⟩ := hshape
+    have hS : S s (pre :: (printCond (.auto fm name lp a0 more rp') ++ rp :: rest)) B C i j =
+        st (S s [] B C i j) (pre :: a :: b :: tl) := by rw [hsh]; rfl
+    have hS' : st (S s [] B C i j) (pre :: a :: b :: tl) =
+        st (S s [] B C i j) (pre :: (printAuto fm name lp a0 more rp' ++ rp :: rest)) := by
+      rw [← hsh]; rfl
+    simp only [elabCond]
+    cases hav : env.autoVars.lookup name.lit with
+    | none =>
+      rw [hS]
+      refine pb_leaf_err env sn false f _ pre a b tl _ ?_ ha hb
+      rw [hS']
+      have hx : C11b.NotLeafStart env name := ⟨by simp [h1], by simp [h1], by simp [h1], fun _ => hav⟩
+      cases fm with
+      | bare =>
+        have := C11b.leaf_reject env sn f (S s [] B C i j) pre name
+          (lp :: (a0 ++ (printMore more ++ [rp'])) ++ (rp :: rest)) (by simp [h1]) hx
+        simpa [printAuto, printCmd, Form.pre, Form.post, notLeafErr] using this
+      | cmp p1 p2 l1 op v =>
+        have := C11b.leaf_reject env sn f (S s [] B C i j) pre name
+          (lp :: (a0 ++ (printMore more ++ [rp'])) ++ ([tkp p1 op.tt l1, v.tok p2] ++ rp :: rest))
+          (by simp [h1]) hx
+        simpa [printAuto, printCmd, Form.pre, Form.post, notLeafErr] using this
+      | neg p l =>
+        have := C11b.leaf_reject_not env sn f (S s [] B C i j) pre (tkp p .NOT l) name
+          (lp :: (a0 ++ (printMore more ++ [rp'])) ++ (rp :: rest)) rfl hx
+        simpa [printAuto, printCmd, Form.pre, Form.post, notLeafErr] using this
+    | some av =>
+      simp only
+      cases hbad : autoPosBad av (more.length + 1) with
+      | some pos =>
+        obtain ⟨hp, hb2⟩ := autoPosBad_some hbad
+        rw [hS]
+        refine pb_leaf_err env sn false f _ pre a b tl _ ?_ ha hb
+        rw [hS']
+        exact C11b.autovar_bad_position_rejected env sn (S s [] B C i j) pre name lp a0 more rp' (rp :: rest) av
+          fm pos h1 hav h2 h3 h4 h5 hp hb2 f (by omega)
+      | none =>
+        have hleaf := C11b.parse_autovar_leaf env sn (S s [] B C i j) pre name lp a0 more rp' (rp :: rest) av fm
+          h1 hav h2 h3 h4 h5 (autoPosBad_none hbad)
+          (by cases fm <;> first | exact follow_rparen rp rest hrp | trivial) f (by omega)
+        rw [← hS'] at hleaf
+        obtain ⟨f', rfl⟩ : ∃ f', f = f' + 1 := ⟨f - 1, by omega⟩
+        rw [hS]
+        exact pb_leaf_multi env sn false (f' + 1) _ _ _ pre a b tl _ _ hleaf ha hb
+          (pr_stop env sn _ false false f' _ rp rest (by simp [hrp]) (by simp [hrp]))
 
 /-- Symbolic execution on `S`-states. -/
 syntax "psimp" (" [" Lean.Parser.Tactic.simpLemma,* "]")? : tactic
@@ -285,12 +402,16 @@ end
 /-- Token types that start a statement. -/
 def startT (t : Tok) : Bool :=
   t.type == .IDENT || t.type == .IF || t.type == .WHILE || t.type == .DO || t.type == .BREAK ||
-    t.type == .CONTINUE || t.type == .SWITCH
+    t.type == .CONTINUE || t.type == .SWITCH || t.type == .PORYSWITCH
 /-- Token types that close a statement list: `}` (block), `case` / `default` (switch-case body). -/
 def closeT (t : Tok) : Bool := t.type == .RBRACE || t.type == .CASE || t.type == .DEFAULT
 
-/-- The token list after a statement starts with a statement or closes the list. -/
-def Fol (rest : List Tok) : Prop := ∃ t tl, rest = t :: tl ∧ (startT t || closeT t) = true
+/-- What may follow a statement: a statement start, a list closer, or the key of the next poryswitch case
+(an identifier or an integer). -/
+def folT (t : Tok) : Bool := startT t || closeT t || t.type == .INT
+
+/-- The token list after a statement starts with such a token. -/
+def Fol (rest : List Tok) : Prop := ∃ t tl, rest = t :: tl ∧ folT t = true
 
 /-- The next token is `}`. -/
 def isRB : List Tok → Bool
@@ -301,18 +422,20 @@ theorem startT_ne {t : Tok} (h : startT t = true) :
     t.type ≠ .RBRACE ∧ t.type ≠ .EOF ∧ t.type ≠ .CASE ∧ t.type ≠ .DEFAULT ∧ t.type ≠ .COLON ∧
       t.type ≠ .LPAREN ∧ t.type ≠ .ELSEIF ∧ t.type ≠ .ELSE := by
   simp only [startT, Bool.or_eq_true, beq_iff_eq] at h
-  rcases h with (((((h | h) | h) | h) | h) | h) | h <;> rw [h] <;> decide
+  rcases h with ((((((h | h) | h) | h) | h) | h) | h) | h <;> rw [h] <;> decide
 
 theorem closeT_ne {t : Tok} (h : closeT t = true) :
     t.type ≠ .EOF ∧ t.type ≠ .COLON ∧ t.type ≠ .LPAREN ∧ t.type ≠ .ELSEIF ∧ t.type ≠ .ELSE := by
   simp only [closeT, Bool.or_eq_true, beq_iff_eq] at h
   rcases h with (h | h) | h <;> rw [h] <;> decide
 
-theorem fol_ne {t : Tok} (h : (startT t || closeT t) = true) :
+theorem fol_ne {t : Tok} (h : folT t = true) :
     t.type ≠ .EOF ∧ t.type ≠ .COLON ∧ t.type ≠ .LPAREN ∧ t.type ≠ .ELSEIF ∧ t.type ≠ .ELSE := by
-  rcases Bool.or_eq_true _ _ ▸ h with h | h
+  simp only [folT, Bool.or_eq_true, beq_iff_eq] at h
+  rcases h with (h | h) | h
   · have := startT_ne h; exact ⟨this.2.1, this.2.2.2.2.1, this.2.2.2.2.2.1, this.2.2.2.2.2.2.1, this.2.2.2.2.2.2.2⟩
   · exact closeT_ne h
+  · rw [h]; decide
 
 /-- A printed statement starts with a statement-start token. -/
 theorem printS_head (x : SStmt) (h : swfS x = true) :
@@ -323,11 +446,11 @@ theorem printS_head (x : SStmt) (h : swfS x = true) :
 theorem fol_printL (r : List SStmt) (h : swfL r = true) (c : Tok) (tl : List Tok) (hc : closeT c = true) :
     Fol (printL r ++ c :: tl) := by
   cases r with
-  | nil => exact ⟨c, tl, by simp [printL], by simp [hc]⟩
+  | nil => exact ⟨c, tl, by simp [printL], by simp [folT, hc]⟩
   | cons x r' =>
     simp only [swfL, Bool.and_eq_true] at h
     obtain ⟨t, tl', hp, ht⟩ := printS_head x h.1
-    exact ⟨t, tl' ++ (printL r' ++ c :: tl), by simp [printL, hp], by simp [ht]⟩
+    exact ⟨t, tl' ++ (printL r' ++ c :: tl), by simp [printL, hp], by simp [folT, ht]⟩
 
 theorem isRB_printL (r : List SStmt) (h : swfL r = true) (c : Tok) (tl : List Tok) :
     isRB (printL r ++ c :: tl) = (r.isEmpty && c.type == .RBRACE) := by
@@ -337,6 +460,16 @@ theorem isRB_printL (r : List SStmt) (h : swfL r = true) (c : Tok) (tl : List To
     simp only [swfL, Bool.and_eq_true] at h
     obtain ⟨t, tl', hp, ht⟩ := printS_head x h.1
     simp [printL, hp, isRB, (startT_ne ht).1]
+
+def isPory : SStmt → Bool
+  | .pory .. => true
+  | _ => false
+
+/-- Only a poryswitch statement starts with the `poryswitch` keyword. -/
+theorem head_isPory (x : SStmt) (h : swfS x = true) (t : Tok) (tl : List Tok) (hp : printS x = t :: tl) :
+    (t.type == .PORYSWITCH) = isPory x := by
+  cases x <;> simp only [swfS, Bool.and_eq_true, beq_iff_eq] at h <;>
+    simp only [printS, printCmd, List.cons.injEq] at hp <;> obtain ⟨rfl, -⟩ := hp <;> simp [isPory, h]
 
 /-! ### results -/
 
@@ -373,6 +506,13 @@ def outK (s : PState) (l : List Tok) (B C : List Nat) (acc : List SwitchCase) (h
   | .ok (a, i, j) => .ok ((acc ++ a, hd, {}), S s l B C i j)
   | .error e => .error e
 
+/-- Result of `parsePoryswitchStatementCases`. -/
+def outP (s : PState) (l : List Tok) (B C : List Nat) :
+    Except PFail (List (String × List Stmt × ImpData) × Nat × Nat) →
+      Except PFail (List (String × List Stmt × ImpData) × PState)
+  | .ok (a, i, j) => .ok (a, S s l B C i j)
+  | .error e => .error e
+
 def SCase.isDflt : SCase → Bool
   | .case .. => false
   | .dflt .. => true
@@ -382,64 +522,66 @@ structure Spec (n : Nat) : Prop where
   stmt : ∀ (env : Env) (sn : String) (s : PState) (B C : List Nat) (i j : Nat) (x : SStmt) (rest : List Tok),
     swfS x = true → Fol rest → needS x ≤ n →
     (parseStatement env sn n).run (S s (printS x ++ rest) B C i j) =
-      outS s (lastS x :: rest) B C (elabS (substC s.constants) B C (isRB rest) x i j)
+      outS s (lastS x :: rest) B C (elabS env (substC s.constants) B C (isRB rest) x i j)
   block : ∀ (env : Env) (sn : String) (tok : Tok) (s : PState) (B C : List Nat) (i j : Nat) (b : List SStmt)
     (acc : List Stmt) (imp : ImpData) (rb : Tok) (rest : List Tok),
     swfL b = true → rb.type = .RBRACE → needL b ≤ n →
     (parseBlockStatement env sn tok n acc imp).run (S s (printL b ++ rb :: rest) B C i j) =
-      outB s (rb :: rest) B C acc imp (elabL (substC s.constants) B C true b i j)
+      outB s (rb :: rest) B C acc imp (elabL env (substC s.constants) B C true b i j)
   swblock : ∀ (env : Env) (sn : String) (tok : Tok) (s : PState) (B C : List Nat) (i j : Nat)
     (b : List SStmt) (acc : List Stmt) (imp : ImpData) (c : Tok) (rest : List Tok),
     swfL b = true → closeT c = true → needL b ≤ n →
     (parseSwitchBlockStatement env sn tok n acc imp).run (S s (printL b ++ c :: rest) B C i j) =
-      outB s (c :: rest) B C acc imp (elabL (substC s.constants) B C (c.type == .RBRACE) b i j)
+      outB s (c :: rest) B C acc imp (elabL env (substC s.constants) B C (c.type == .RBRACE) b i j)
   cond1 : ∀ (env : Env) (sn : String) (req : Bool) (s : PState) (B C : List Nat) (i j : Nat) (pre lp : Tok)
-    (c : SOr) (rp lb : Tok) (body : List SStmt) (rb : Tok) (rest : List Tok),
+    (c : SCond) (rp lb : Tok) (body : List SStmt) (rb : Tok) (rest : List Tok),
     lp.type = .LPAREN → rp.type = .RPAREN → lb.type = .LBRACE → rb.type = .RBRACE → swfL body = true →
-    1 + needOr c + needL body ≤ n →
+    swfCond c = true → 1 + needCond c + needL body ≤ n →
     (parseConditionExpression env sn req n).run
-        (S s (pre :: lp :: (printOr c ++ rp :: lb :: (printL body ++ rb :: rest))) B C i j) =
-      outC s (rb :: rest) B C (some (treeOr (substC s.constants) false c))
-        (elabL (substC s.constants) B C true body i j)
+        (S s (pre :: lp :: (printCond c ++ rp :: lb :: (printL body ++ rb :: rest))) B C i j) =
+      match elabCond env (substC s.constants) c j with
+      | .error e => .error e
+      | .ok (t, j0) =>
+        outC s (rb :: rest) B C (some t) (elabL env (substC s.constants) B C true body i j0)
   cond0 : ∀ (env : Env) (sn : String) (s : PState) (B C : List Nat) (i j : Nat) (pre lb : Tok)
     (body : List SStmt) (rb : Tok) (rest : List Tok),
     lb.type = .LBRACE → rb.type = .RBRACE → swfL body = true → 1 + needL body ≤ n →
     (parseConditionExpression env sn false n).run (S s (pre :: lb :: (printL body ++ rb :: rest)) B C i j) =
-      outC s (rb :: rest) B C none (elabL (substC s.constants) B C true body i j)
+      outC s (rb :: rest) B C none (elabL env (substC s.constants) B C true body i j)
   elifs : ∀ (env : Env) (sn : String) (s : PState) (B C : List Nat) (i j : Nat)
     (acc : List (BoolExpr × List Stmt)) (es : List SElif) (pre : Tok) (rest : List Tok),
     swfElifs es = true → (∃ t tl, rest = t :: tl ∧ t.type ≠ .ELSEIF) → needElifs es ≤ n →
     (parseElifs env sn n acc {}).run (S s (pre :: (printElifs es ++ rest)) B C i j) =
-      outE s (lastElifs es pre :: rest) B C acc (elabElifs (substC s.constants) B C es i j)
-  ifs : ∀ (env : Env) (sn : String) (s : PState) (B C : List Nat) (i j : Nat) (ifTok lp : Tok) (c : SOr)
+      outE s (lastElifs es pre :: rest) B C acc (elabElifs env (substC s.constants) B C es i j)
+  ifs : ∀ (env : Env) (sn : String) (s : PState) (B C : List Nat) (i j : Nat) (ifTok lp : Tok) (c : SCond)
     (rp lb : Tok) (body : List SStmt) (rb : Tok) (elifs : List SElif) (els : SElse) (rest : List Tok),
     swfS (.ite ifTok lp c rp lb body rb elifs els) = true → Fol rest →
     needS (.ite ifTok lp c rp lb body rb elifs els) ≤ n + 1 →
     (parseIfStatement env sn n).run (S s (printS (.ite ifTok lp c rp lb body rb elifs els) ++ rest) B C i j) =
       outS s (lastS (.ite ifTok lp c rp lb body rb elifs els) :: rest) B C
-        (elabS (substC s.constants) B C (isRB rest) (.ite ifTok lp c rp lb body rb elifs els) i j)
-  whiles : ∀ (env : Env) (sn : String) (s : PState) (B C : List Nat) (i j : Nat) (w lp : Tok) (c : SOr)
+        (elabS env (substC s.constants) B C (isRB rest) (.ite ifTok lp c rp lb body rb elifs els) i j)
+  whiles : ∀ (env : Env) (sn : String) (s : PState) (B C : List Nat) (i j : Nat) (w lp : Tok) (c : SCond)
     (rp lb : Tok) (body : List SStmt) (rb : Tok) (rest : List Tok),
     swfS (.while_ w lp c rp lb body rb) = true → needS (.while_ w lp c rp lb body rb) ≤ n + 1 →
     (parseWhileStatement env sn n).run (S s (printS (.while_ w lp c rp lb body rb) ++ rest) B C i j) =
-      outS s (rb :: rest) B C (elabS (substC s.constants) B C (isRB rest) (.while_ w lp c rp lb body rb) i j)
+      outS s (rb :: rest) B C (elabS env (substC s.constants) B C (isRB rest) (.while_ w lp c rp lb body rb) i j)
   whileInfs : ∀ (env : Env) (sn : String) (s : PState) (B C : List Nat) (i j : Nat) (w lb : Tok)
     (body : List SStmt) (rb : Tok) (rest : List Tok),
     swfS (.whileInf w lb body rb) = true → needS (.whileInf w lb body rb) ≤ n + 1 →
     (parseWhileStatement env sn n).run (S s (printS (.whileInf w lb body rb) ++ rest) B C i j) =
-      outS s (rb :: rest) B C (elabS (substC s.constants) B C (isRB rest) (.whileInf w lb body rb) i j)
+      outS s (rb :: rest) B C (elabS env (substC s.constants) B C (isRB rest) (.whileInf w lb body rb) i j)
   doWhiles : ∀ (env : Env) (sn : String) (s : PState) (B C : List Nat) (i j : Nat) (d lb : Tok)
-    (body : List SStmt) (rb w lp : Tok) (c : SOr) (rp : Tok) (rest : List Tok),
+    (body : List SStmt) (rb w lp : Tok) (c : SCond) (rp : Tok) (rest : List Tok),
     swfS (.doWhile d lb body rb w lp c rp) = true → needS (.doWhile d lb body rb w lp c rp) ≤ n + 1 →
     (parseDoWhileStatement env sn n).run (S s (printS (.doWhile d lb body rb w lp c rp) ++ rest) B C i j) =
       outS s (rp :: rest) B C
-        (elabS (substC s.constants) B C (isRB rest) (.doWhile d lb body rb w lp c rp) i j)
+        (elabS env (substC s.constants) B C (isRB rest) (.doWhile d lb body rb w lp c rp) i j)
   cases : ∀ (env : Env) (sn : String) (brace : Tok) (s : PState) (B C : List Nat) (i j : Nat)
     (acc : List SwitchCase) (seen : List String) (hd : Bool) (cs : List SCase) (rb : Tok) (rest : List Tok),
     swfCases cs = true → rb.type = .RBRACE → needCases cs ≤ n →
     (parseSwitchCases env sn brace n acc seen hd {}).run (S s (printCases cs ++ rb :: rest) B C i j) =
       outK s (rb :: rest) B C acc (hd || cs.any SCase.isDflt)
-        (elabCases (substC s.constants) B C cs seen hd i j)
+        (elabCases env (substC s.constants) B C cs seen hd i j)
   switch : ∀ (env : Env) (sn : String) (s : PState) (B C : List Nat) (i j : Nat) (sw lp v lp2 : Tok)
     (ops : List Tok) (rp2 rp lb : Tok) (cs : List SCase) (rb : Tok) (rest : List Tok),
     swfS (.switch_ sw lp v lp2 ops rp2 rp lb cs rb) = true →
@@ -447,7 +589,36 @@ structure Spec (n : Nat) : Prop where
     (parseSwitchStatement env sn n).run
         (S s (printS (.switch_ sw lp v lp2 ops rp2 rp lb cs rb) ++ rest) B C i j) =
       outS s (rb :: rest) B C
-        (elabS (substC s.constants) B C (isRB rest) (.switch_ sw lp v lp2 ops rp2 rp lb cs rb) i j)
+        (elabS env (substC s.constants) B C (isRB rest) (.switch_ sw lp v lp2 ops rp2 rp lb cs rb) i j)
+  switchA : ∀ (env : Env) (sn : String) (s : PState) (B C : List Nat) (i j : Nat) (sw lp name lp2 : Tok)
+    (a0 : List Tok) (more : List (Tok × List Tok)) (rp2 rp lb : Tok) (cs : List SCase) (rb : Tok)
+    (rest : List Tok),
+    swfS (.switchA sw lp name lp2 a0 more rp2 rp lb cs rb) = true →
+    needS (.switchA sw lp name lp2 a0 more rp2 rp lb cs rb) ≤ n + 1 →
+    (parseSwitchStatement env sn n).run
+        (S s (printS (.switchA sw lp name lp2 a0 more rp2 rp lb cs rb) ++ rest) B C i j) =
+      outS s (rb :: rest) B C
+        (elabS env (substC s.constants) B C (isRB rest) (.switchA sw lp name lp2 a0 more rp2 rp lb cs rb) i j)
+  pory : ∀ (env : Env) (sn : String) (s : PState) (B C : List Nat) (i j : Nat) (ps lp x rp lb : Tok)
+    (cs : List SPCase) (rb : Tok) (rest : List Tok),
+    swfS (.pory ps lp x rp lb cs rb) = true → needS (.pory ps lp x rp lb cs rb) ≤ n + 1 →
+    (parsePoryswitchStatement env sn n).run (S s (printS (.pory ps lp x rp lb cs rb) ++ rest) B C i j) =
+      outS s (rb :: rest) B C
+        (elabS env (substC s.constants) B C (isRB rest) (.pory ps lp x rp lb cs rb) i j)
+  pcases : ∀ (env : Env) (sn : String) (startTok : Tok) (s : PState) (B C : List Nat) (i j : Nat)
+    (acc : List (String × List Stmt × ImpData)) (cs : List SPCase) (rb : Tok) (rest : List Tok),
+    swfPCases cs = true → rb.type = .RBRACE → needPCases cs ≤ n →
+    (parsePoryswitchStatementCases env sn startTok n acc).run (S s (printPCases cs ++ rb :: rest) B C i j) =
+      outP s (rb :: rest) B C (elabPCases env (substC s.constants) B C cs acc i j)
+  pstmts : ∀ (env : Env) (sn : String) (s : PState) (B C : List Nat) (i j : Nat) (b : List SStmt)
+    (acc : List Stmt) (imp : ImpData) (rb : Tok) (rest : List Tok),
+    swfL b = true → rb.type = .RBRACE → needL b ≤ n →
+    (parsePoryswitchStatements env sn true n acc imp).run (S s (printL b ++ rb :: rest) B C i j) =
+      outB s (rb :: rest) B C acc imp (elabL env (substC s.constants) B C true b i j)
+  pstmt1 : ∀ (env : Env) (sn : String) (s : PState) (B C : List Nat) (i j : Nat) (x : SStmt)
+    (rest : List Tok), swfS x = true → Fol rest → needS x + 1 ≤ n →
+    (parsePoryswitchStatements env sn false n [] {}).run (S s (printS x ++ rest) B C i j) =
+      outB s rest B C [] {} (elabS env (substC s.constants) B C (isRB rest) x i j)
 
 section
 variable {n : Nat} (ih : Spec n) (env : Env) (sn : String) (s : PState) (B C : List Nat) (i j : Nat)
@@ -456,7 +627,7 @@ include ih
 theorem block_step (tok : Tok) (b : List SStmt) (acc : List Stmt) (imp : ImpData) (rb : Tok)
     (rest : List Tok) (hb : swfL b = true) (hrb : rb.type = .RBRACE) (hf : needL b ≤ n + 1) :
     (parseBlockStatement env sn tok (n + 1) acc imp).run (S s (printL b ++ rb :: rest) B C i j) =
-      outB s (rb :: rest) B C acc imp (elabL (substC s.constants) B C true b i j) := by
+      outB s (rb :: rest) B C acc imp (elabL env (substC s.constants) B C true b i j) := by
   cases b with
   | nil =>
     rw [block_nil env sn n tok acc imp _ (by simp [printL, S_toks, hrb])]
@@ -473,20 +644,20 @@ theorem block_step (tok : Tok) (b : List SStmt) (acc : List Stmt) (imp : ImpData
       simp [printL]
     rw [hw, block_cons env sn n tok acc imp _ (by simp [S_toks, hp, hne.1]) (by simp [S_toks, hp, hne.2.1]), h1]
     simp only [elabL, bt hrb]
-    cases elabS (substC s.constants) B C (r.isEmpty && true) x i j with
+    cases elabS env (substC s.constants) B C (r.isEmpty && true) x i j with
     | error e => rfl
     | ok v =>
       obtain ⟨a, i1, j1⟩ := v
       simp only [outS, S_toks, st_S, List.tail_cons, add_nil]
       rw [ih.block env sn tok s B C i1 j1 r (acc ++ a) imp rb rest hb.2 hrb (by omega)]
-      cases elabL (substC s.constants) B C true r i1 j1 with
+      cases elabL env (substC s.constants) B C true r i1 j1 with
       | error e => rfl
       | ok w => obtain ⟨b', i2, j2⟩ := w; simp [outB]
 
 theorem swblock_step (tok : Tok) (b : List SStmt) (acc : List Stmt) (imp : ImpData) (c : Tok)
     (rest : List Tok) (hb : swfL b = true) (hc : closeT c = true) (hf : needL b ≤ n + 1) :
     (parseSwitchBlockStatement env sn tok (n + 1) acc imp).run (S s (printL b ++ c :: rest) B C i j) =
-      outB s (c :: rest) B C acc imp (elabL (substC s.constants) B C (c.type == .RBRACE) b i j) := by
+      outB s (c :: rest) B C acc imp (elabL env (substC s.constants) B C (c.type == .RBRACE) b i j) := by
   cases b with
   | nil =>
     rw [swblock_nil env sn n tok acc imp _ (by
@@ -505,13 +676,13 @@ theorem swblock_step (tok : Tok) (b : List SStmt) (acc : List Stmt) (imp : ImpDa
     rw [hw, swblock_cons env sn n tok acc imp _ (by simp [S_toks, hp, hne.1]) (by simp [S_toks, hp, hne.2.1])
       (by simp [S_toks, hp, hne.2.2.1]) (by simp [S_toks, hp, hne.2.2.2.1]), h1]
     simp only [elabL]
-    cases elabS (substC s.constants) B C (r.isEmpty && c.type == .RBRACE) x i j with
+    cases elabS env (substC s.constants) B C (r.isEmpty && c.type == .RBRACE) x i j with
     | error e => rfl
     | ok v =>
       obtain ⟨a, i1, j1⟩ := v
       simp only [outS, S_toks, st_S, List.tail_cons, add_nil]
       rw [ih.swblock env sn tok s B C i1 j1 r (acc ++ a) imp c rest hb.2 hc (by omega)]
-      cases elabL (substC s.constants) B C (c.type == .RBRACE) r i1 j1 with
+      cases elabL env (substC s.constants) B C (c.type == .RBRACE) r i1 j1 with
       | error e => rfl
       | ok w => obtain ⟨b', i2, j2⟩ := w; simp [outB]
 
@@ -551,6 +722,127 @@ theorem stmt_do (h : (st0.toks.headD st0.eof).type = .DO) :
 theorem stmt_switch (h : (st0.toks.headD st0.eof).type = .SWITCH) :
     (parseStatement env sn (n + 1)).run st0 = (parseSwitchStatement env sn n).run st0 := by
   rw [parseStatement]; rsimp [h]
+theorem stmt_pory (h : (st0.toks.headD st0.eof).type = .PORYSWITCH) :
+    (parseStatement env sn (n + 1)).run st0 = (parsePoryswitchStatement env sn n).run st0 := by
+  rw [parseStatement]; rsimp [h]
+
+/-- The statement parser `parsePoryswitchStatements` calls for the current token. -/
+def stmtOrPory (env : Env) (sn : String) (n : Nat) (st0 : PState) : PM (List Stmt × ImpData) :=
+  if (st0.toks.headD st0.eof).type == .PORYSWITCH then parsePoryswitchStatement env sn n
+  else parseStatement env sn n
+
+/-- One iteration of the statement loop of a poryswitch case. -/
+theorem pstmts_cons (am : Bool) (acc : List Stmt) (imp : ImpData)
+    (h1 : (st0.toks.headD st0.eof).type ≠ .RBRACE) :
+    (parsePoryswitchStatements env sn am (n + 1) acc imp).run st0 =
+      match (stmtOrPory env sn n st0).run st0 with
+      | .error e => .error e
+      | .ok ((stmts, simp), s1) =>
+        if am then
+          (parsePoryswitchStatements env sn am n (acc ++ stmts) (imp.add simp)).run (st s1 s1.toks.tail)
+        else .ok ((acc ++ stmts, imp.add simp), st s1 s1.toks.tail) := by
+  rw [parsePoryswitchStatements]
+  unfold stmtOrPory
+  by_cases hp : (st0.toks.headD st0.eof).type = .PORYSWITCH
+  · rsimp [bf h1, bt hp]
+    cases (parsePoryswitchStatement env sn n).run st0 with
+    | error e => rfl
+    | ok r => obtain ⟨⟨stmts, simp⟩, s1⟩ := r; cases am <;> rfl
+  · rsimp [bf h1, bf hp]
+    cases (parseStatement env sn n).run st0 with
+    | error e => rfl
+    | ok r => obtain ⟨⟨stmts, simp⟩, s1⟩ := r; cases am <;> rfl
+
+theorem pstmts_nil (am : Bool) (acc : List Stmt) (imp : ImpData)
+    (h1 : (st0.toks.headD st0.eof).type = .RBRACE) :
+    (parsePoryswitchStatements env sn am (n + 1) acc imp).run st0 = .ok ((acc, imp), st0) := by
+  rw [parsePoryswitchStatements]
+  rsimp [bt h1]
+
+theorem pcases_colon (startTok : Tok) (acc : List (String × List Stmt × ImpData)) (s : PState)
+    (B C : List Nat) (i j : Nat) (key c : Tok) (tl : List Tok)
+    (hk : key.type = .IDENT ∨ key.type = .INT) (hc : c.type = .COLON) :
+    (parsePoryswitchStatementCases env sn startTok (n + 1) acc).run (S s (key :: c :: tl) B C i j) =
+      match (parsePoryswitchStatements env sn false n [] {}).run (S s tl B C i j) with
+      | .error e => .error e
+      | .ok ((stmts, simp), s1) =>
+        (parsePoryswitchStatementCases env sn startTok n ((key.lit, stmts, simp) :: acc)).run s1 := by
+  rw [parsePoryswitchStatementCases]
+  have h1 : (key.type == TT.RBRACE) = false := by rcases hk with h | h <;> rw [h] <;> decide
+  have h2 : (key.type == TT.EOF) = false := by rcases hk with h | h <;> rw [h] <;> decide
+  have h3 : (key.type != TT.IDENT && key.type != TT.INT) = false := by
+    rcases hk with h | h <;> rw [h] <;> decide
+  have h5 : (c.type == TT.LBRACE) = false := by rw [hc]; decide
+  psimp [h1, h2, h3, bt hc, h5]
+  cases (parsePoryswitchStatements env sn false n [] {}).run (S s tl B C i j) with
+  | error e => rfl
+  | ok r => obtain ⟨⟨stmts, simp⟩, s1⟩ := r; rfl
+
+theorem pcases_brace (startTok : Tok) (acc : List (String × List Stmt × ImpData)) (s : PState)
+    (B C : List Nat) (i j : Nat) (key lb : Tok) (tl : List Tok)
+    (hk : key.type = .IDENT ∨ key.type = .INT) (hlb : lb.type = .LBRACE) :
+    (parsePoryswitchStatementCases env sn startTok (n + 1) acc).run (S s (key :: lb :: tl) B C i j) =
+      match (parsePoryswitchStatements env sn true n [] {}).run (S s tl B C i j) with
+      | .error e => .error e
+      | .ok ((stmts, simp), s1) =>
+        if (s1.toks.headD s1.eof).type == .RBRACE then
+          (parsePoryswitchStatementCases env sn startTok n ((key.lit, stmts, simp) :: acc)).run
+            (st s1 s1.toks.tail)
+        else .error (newParseError key s!"missing closing curly brace for poryswitch case '{key.lit}'") := by
+  rw [parsePoryswitchStatementCases]
+  have h1 : (key.type == TT.RBRACE) = false := by rcases hk with h | h <;> rw [h] <;> decide
+  have h2 : (key.type == TT.EOF) = false := by rcases hk with h | h <;> rw [h] <;> decide
+  have h3 : (key.type != TT.IDENT && key.type != TT.INT) = false := by
+    rcases hk with h | h <;> rw [h] <;> decide
+  have h4 : (lb.type == TT.COLON) = false := by rw [hlb]; decide
+  psimp [h1, h2, h3, h4, bt hlb]
+  cases (parsePoryswitchStatements env sn true n [] {}).run (S s tl B C i j) with
+  | error e => rfl
+  | ok r =>
+    obtain ⟨⟨stmts, simp⟩, s1⟩ := r
+    by_cases hr : ((s1.toks.headD s1.eof).type == TT.RBRACE) = true
+    · rsimp [hr]
+    · rsimp [hr]
+
+/-- The header of a poryswitch statement: what the environment decides. -/
+def hdrErr (env : Env) (ps x : Tok) : Option PFail :=
+  if env.envErrors && env.switches.isEmpty then some (noSwitchesErr ps)
+  else if env.envErrors && (env.switches.lookup x.lit).isNone then some (undefinedSwitchErr x)
+  else none
+
+theorem header_S (s : PState) (B C : List Nat) (i j : Nat) (ps lp x rp lb : Tok) (tl : List Tok)
+    (hlp : lp.type = .LPAREN) (hx : x.type = .IDENT) (hrp : rp.type = .RPAREN) (hlb : lb.type = .LBRACE) :
+    (parsePoryswitchHeader env).run (S s (ps :: lp :: x :: rp :: lb :: tl) B C i j) =
+      match hdrErr env ps x with
+      | some e => .error e
+      | none => .ok ((x.lit, swVal env x.lit), S s tl B C i j) := by
+  unfold hdrErr
+  cases he : env.envErrors with
+  | false =>
+    simp only [Bool.false_and, Bool.false_eq_true, if_false]
+    exact header_run env (S s [] B C i j) ps lp x rp lb tl hlp hx hrp hlb (Or.inl he)
+  | true =>
+    cases hs : env.switches with
+    | nil =>
+      simp only [Bool.true_and, List.isEmpty_nil, if_true]
+      exact header_no_switches env (S s [] B C i j) ps _ he hs
+    | cons a r =>
+      have hne : env.switches ≠ [] := by rw [hs]; simp
+      rw [← hs]
+      cases hl : env.switches.lookup x.lit with
+      | none =>
+        simp only [Bool.true_and, hs, List.isEmpty_cons, Bool.false_eq_true, if_false, Option.isNone_none,
+          if_true]
+        exact header_undefined_switch env (S s [] B C i j) ps lp x _ hlp hx he hne hl
+      | some v =>
+        simp only [Bool.true_and, hs, List.isEmpty_cons, Bool.false_eq_true, if_false, Option.isNone_some]
+        exact header_run env (S s [] B C i j) ps lp x rp lb tl hlp hx hrp hlb (Or.inr ⟨hne, by rw [hl]; rfl⟩)
+
+theorem pcases_nil (startTok : Tok) (acc : List (String × List Stmt × ImpData))
+    (h1 : (st0.toks.headD st0.eof).type = .RBRACE) :
+    (parsePoryswitchStatementCases env sn startTok (n + 1) acc).run st0 = .ok (acc, st0) := by
+  rw [parsePoryswitchStatementCases]
+  rsimp [bt h1]
 
 end
 
@@ -561,7 +853,7 @@ include ih
 theorem stmt_step (x : SStmt) (rest : List Tok) (hx : swfS x = true) (hfol : Fol rest)
     (hf : needS x ≤ n + 1) :
     (parseStatement env sn (n + 1)).run (S s (printS x ++ rest) B C i j) =
-      outS s (lastS x :: rest) B C (elabS (substC s.constants) B C (isRB rest) x i j) := by
+      outS s (lastS x :: rest) B C (elabS env (substC s.constants) B C (isRB rest) x i j) := by
   obtain ⟨t, tl, rfl, ht⟩ := hfol
   have hne := fol_ne ht
   cases x with
@@ -591,12 +883,12 @@ theorem stmt_step (x : SStmt) (rest : List Tok) (hx : swfS x = true) (hfol : Fol
     exact stmt_labelS env sn s B C i j n name lp sc rp colon _ hx.1.1.1.1 hx.1.1.1.2 hx.1.1.2 hx.1.2 hx.2
   | ite ifTok lp c rp lb body rb elifs els =>
     have h0 : ifTok.type = .IF := by
-      simp only [swfS, Bool.and_eq_true, beq_iff_eq] at hx; exact hx.1.1.1.1.1.1.1
+      simp only [swfS, Bool.and_eq_true, beq_iff_eq] at hx; exact hx.1.1.1.1.1.1.1.1
     rw [stmt_if env sn n _ (by simp [printS, S_toks, h0])]
     exact ih.ifs env sn s B C i j ifTok lp c rp lb body rb elifs els _ hx ⟨t, tl, rfl, ht⟩ hf
   | while_ w lp c rp lb body rb =>
     have h0 : w.type = .WHILE := by
-      simp only [swfS, Bool.and_eq_true, beq_iff_eq] at hx; exact hx.1.1.1.1.1
+      simp only [swfS, Bool.and_eq_true, beq_iff_eq] at hx; exact hx.1.1.1.1.1.1
     rw [stmt_while env sn n _ (by simp [printS, S_toks, h0])]
     exact ih.whiles env sn s B C i j w lp c rp lb body rb _ hx hf
   | whileInf w lb body rb =>
@@ -606,7 +898,7 @@ theorem stmt_step (x : SStmt) (rest : List Tok) (hx : swfS x = true) (hfol : Fol
     exact ih.whileInfs env sn s B C i j w lb body rb _ hx hf
   | doWhile d lb body rb w lp c rp =>
     have h0 : d.type = .DO := by
-      simp only [swfS, Bool.and_eq_true, beq_iff_eq] at hx; exact hx.1.1.1.1.1.1
+      simp only [swfS, Bool.and_eq_true, beq_iff_eq] at hx; exact hx.1.1.1.1.1.1.1
     rw [stmt_do env sn n _ (by simp [printS, S_toks, h0])]
     exact ih.doWhiles env sn s B C i j d lb body rb w lp c rp _ hx hf
   | brk b =>
@@ -629,34 +921,53 @@ theorem stmt_step (x : SStmt) (rest : List Tok) (hx : swfS x = true) (hfol : Fol
       simp only [swfS, Bool.and_eq_true, beq_iff_eq] at hx; exact hx.1.1.1.1.1.1.1.1.1
     rw [stmt_switch env sn n _ (by simp [printS, S_toks, h0])]
     exact ih.switch env sn s B C i j sw lp v lp2 ops rp2 rp lb cs rb _ hx hf
+  | switchA sw lp name lp2 a0 more rp2 rp lb cs rb =>
+    have h0 : sw.type = .SWITCH := by
+      simp only [swfS, Bool.and_eq_true, beq_iff_eq] at hx; exact hx.1.1.1.1.1.1.1.1.1.1
+    rw [stmt_switch env sn n _ (by simp [printS, S_toks, h0])]
+    exact ih.switchA env sn s B C i j sw lp name lp2 a0 more rp2 rp lb cs rb _ hx hf
+  | pory ps lp x rp lb cs rb =>
+    have h0 : ps.type = .PORYSWITCH := by
+      simp only [swfS, Bool.and_eq_true, beq_iff_eq] at hx; exact hx.1.1.1.1.1.1
+    rw [stmt_pory env sn n _ (by simp [printS, S_toks, h0])]
+    exact ih.pory env sn s B C i j ps lp x rp lb cs rb _ hx hf
 
-theorem cond1_step (req : Bool) (pre lp : Tok) (c : SOr) (rp lb : Tok) (body : List SStmt) (rb : Tok)
+theorem cond1_step (req : Bool) (pre lp : Tok) (c : SCond) (rp lb : Tok) (body : List SStmt) (rb : Tok)
     (rest : List Tok) (hlp : lp.type = .LPAREN) (hrp : rp.type = .RPAREN) (hlb : lb.type = .LBRACE)
-    (hrb : rb.type = .RBRACE) (hb : swfL body = true) (hf : 1 + needOr c + needL body ≤ n + 1) :
+    (hrb : rb.type = .RBRACE) (hb : swfL body = true) (hc : swfCond c = true)
+    (hf : 1 + needCond c + needL body ≤ n + 1) :
     (parseConditionExpression env sn req (n + 1)).run
-        (S s (pre :: lp :: (printOr c ++ rp :: lb :: (printL body ++ rb :: rest))) B C i j) =
-      outC s (rb :: rest) B C (some (treeOr (substC s.constants) false c))
-        (elabL (substC s.constants) B C true body i j) := by
+        (S s (pre :: lp :: (printCond c ++ rp :: lb :: (printL body ++ rb :: rest))) B C i j) =
+      match elabCond env (substC s.constants) c j with
+      | .error e => .error e
+      | .ok (t, j0) =>
+        outC s (rb :: rest) B C (some t) (elabL env (substC s.constants) B C true body i j0) := by
   rw [parseConditionExpression]
   have h1 : (lp.type == TT.LBRACE) = false := by rw [hlp]; decide
-  psimp [h1, bt hlp, bool_S env sn s B C i j c lp rp _ hrp n (by omega),
-    run_expectPeekErr_ok .LBRACE (S s (rp :: lb :: (printL body ++ rb :: rest)) B C i j) (by simp [S_toks, hlb]),
-    ih.block env sn lb s B C i j body [] {} rb rest hb hrb (by omega)]
-  cases elabL (substC s.constants) B C true body i j with
+  psimp [h1, bt hlp, cond_S env sn s B C i j c lp rp _ hc hrp n (by omega)]
+  cases elabCond env (substC s.constants) c j with
   | error e => rfl
-  | ok v => obtain ⟨a, i1, j1⟩ := v; rfl
+  | ok v =>
+    obtain ⟨t, j0⟩ := v
+    simp only [ex_bind_ok]
+    psimp [run_expectPeekErr_ok .LBRACE (S s (rp :: lb :: (printL body ++ rb :: rest)) B C i j0)
+        (by simp [S_toks, hlb]),
+      ih.block env sn lb s B C i j0 body [] {} rb rest hb hrb (by omega)]
+    cases elabL env (substC s.constants) B C true body i j0 with
+    | error e => rfl
+    | ok v => obtain ⟨a, i1, j1⟩ := v; rfl
 
 theorem cond0_step (pre lb : Tok) (body : List SStmt) (rb : Tok) (rest : List Tok)
     (hlb : lb.type = .LBRACE) (hrb : rb.type = .RBRACE) (hb : swfL body = true)
     (hf : 1 + needL body ≤ n + 1) :
     (parseConditionExpression env sn false (n + 1)).run
         (S s (pre :: lb :: (printL body ++ rb :: rest)) B C i j) =
-      outC s (rb :: rest) B C none (elabL (substC s.constants) B C true body i j) := by
+      outC s (rb :: rest) B C none (elabL env (substC s.constants) B C true body i j) := by
   rw [parseConditionExpression]
   psimp [bt hlb,
     run_expectPeekErr_ok .LBRACE (S s (pre :: lb :: (printL body ++ rb :: rest)) B C i j) (by simp [S_toks, hlb]),
     ih.block env sn lb s B C i j body [] {} rb rest hb hrb (by omega)]
-  cases elabL (substC s.constants) B C true body i j with
+  cases elabL env (substC s.constants) B C true body i j with
   | error e => rfl
   | ok v => obtain ⟨a, i1, j1⟩ := v; rfl
 
@@ -664,7 +975,7 @@ theorem elifs_step (acc : List (BoolExpr × List Stmt)) (es : List SElif) (pre :
     (hes : swfElifs es = true) (hrest : ∃ t tl, rest = t :: tl ∧ t.type ≠ .ELSEIF)
     (hf : needElifs es ≤ n + 1) :
     (parseElifs env sn (n + 1) acc {}).run (S s (pre :: (printElifs es ++ rest)) B C i j) =
-      outE s (lastElifs es pre :: rest) B C acc (elabElifs (substC s.constants) B C es i j) := by
+      outE s (lastElifs es pre :: rest) B C acc (elabElifs env (substC s.constants) B C es i j) := by
   cases es with
   | nil =>
     obtain ⟨t, tl, rfl, ht⟩ := hrest
@@ -674,42 +985,51 @@ theorem elifs_step (acc : List (BoolExpr × List Stmt)) (es : List SElif) (pre :
   | cons e r =>
     obtain ⟨eTok, lp, c, rp, lb, body, rb⟩ := e
     simp only [swfElifs, swfElif, Bool.and_eq_true, beq_iff_eq] at hes
-    obtain ⟨⟨⟨⟨⟨⟨h1, h2⟩, h3⟩, h4⟩, h5⟩, h6⟩, h7⟩ := hes
+    obtain ⟨⟨⟨⟨⟨⟨⟨h1, h2⟩, h3⟩, h4⟩, h5⟩, h6⟩, h8⟩, h7⟩ := hes
     simp only [needElifs] at hf
     rw [parseElifs]
     simp only [printElifs, printElif, List.cons_append, List.append_assoc, List.nil_append]
     psimp [bnf h1, ih.cond1 env sn true s B C i j eTok lp c rp lb body rb (printElifs r ++ rest) h2 h3 h4 h5 h6
-      (by omega)]
+      h8 (by omega)]
     simp only [elabElifs, lastElifs, SElif.rb]
-    cases elabL (substC s.constants) B C true body i j with
+    cases elabCond env (substC s.constants) c j with
     | error e => rfl
-    | ok v =>
-      obtain ⟨a, i1, j1⟩ := v
-      simp only [outC, ex_bind_ok]
-      psimp [ih.elifs env sn s B C i1 j1 (acc ++ [(treeOr (substC s.constants) false c, a)]) r rb rest h7 hrest
-        (by omega)]
-      cases elabElifs (substC s.constants) B C r i1 j1 with
+    | ok u =>
+      obtain ⟨t, j0⟩ := u
+      simp only
+      cases elabL env (substC s.constants) B C true body i j0 with
       | error e => rfl
-      | ok w => obtain ⟨es', i2, j2⟩ := w; simp [outE]
+      | ok v =>
+        obtain ⟨a, i1, j1⟩ := v
+        simp only [outC, ex_bind_ok]
+        psimp [ih.elifs env sn s B C i1 j1 (acc ++ [(t, a)]) r rb rest h7 hrest (by omega)]
+        cases elabElifs env (substC s.constants) B C r i1 j1 with
+        | error e => rfl
+        | ok w => obtain ⟨es', i2, j2⟩ := w; simp [outE]
 
-theorem if_step (ifTok lp : Tok) (c : SOr) (rp lb : Tok) (body : List SStmt) (rb : Tok)
+theorem if_step (ifTok lp : Tok) (c : SCond) (rp lb : Tok) (body : List SStmt) (rb : Tok)
     (elifs : List SElif) (els : SElse) (rest : List Tok)
     (hx : swfS (.ite ifTok lp c rp lb body rb elifs els) = true) (hfol : Fol rest)
     (hf : needS (.ite ifTok lp c rp lb body rb elifs els) ≤ n + 2) :
     (parseIfStatement env sn (n + 1)).run
         (S s (printS (.ite ifTok lp c rp lb body rb elifs els) ++ rest) B C i j) =
       outS s (lastS (.ite ifTok lp c rp lb body rb elifs els) :: rest) B C
-        (elabS (substC s.constants) B C (isRB rest) (.ite ifTok lp c rp lb body rb elifs els) i j) := by
+        (elabS env (substC s.constants) B C (isRB rest) (.ite ifTok lp c rp lb body rb elifs els) i j) := by
   obtain ⟨t, tl, rfl, ht⟩ := hfol
   have hne := fol_ne ht
   simp only [swfS, Bool.and_eq_true, beq_iff_eq] at hx
-  obtain ⟨⟨⟨⟨⟨⟨⟨h1, h2⟩, h3⟩, h4⟩, h5⟩, h6⟩, h7⟩, h8⟩ := hx
+  obtain ⟨⟨⟨⟨⟨⟨⟨⟨h1, h2⟩, h3⟩, h4⟩, h5⟩, h6⟩, h7⟩, h8⟩, h9⟩ := hx
   simp only [needS] at hf
   rw [parseIfStatement]
   simp only [printS, lastS, elabS, List.cons_append, List.append_assoc]
   psimp [ih.cond1 env sn true s B C i j ifTok lp c rp lb body rb (printElifs elifs ++ (printElse els ++ t :: tl))
-    h2 h3 h4 h5 h6 (by omega)]
-  cases elabL (substC s.constants) B C true body i j with
+    h2 h3 h4 h5 h6 h9 (by omega)]
+  cases elabCond env (substC s.constants) c j with
+  | error e => rfl
+  | ok u =>
+  obtain ⟨ct, j0⟩ := u
+  simp only
+  cases elabL env (substC s.constants) B C true body i j0 with
   | error e => rfl
   | ok v =>
     obtain ⟨a, i1, j1⟩ := v
@@ -721,7 +1041,7 @@ theorem if_step (ifTok lp : Tok) (c : SOr) (rp lb : Tok) (body : List SStmt) (rb
         simp only [swfElse, Bool.and_eq_true, beq_iff_eq] at h8
         exact ⟨e, lb2 :: (printL body2 ++ rb2 :: t :: tl), by simp [printElse], by rw [h8.1.1.1]; decide⟩
     psimp [ih.elifs env sn s B C i1 j1 [] elifs rb (printElse els ++ t :: tl) h7 hel (by omega)]
-    cases elabElifs (substC s.constants) B C elifs i1 j1 with
+    cases elabElifs env (substC s.constants) B C elifs i1 j1 with
     | error e => rfl
     | ok w =>
       obtain ⟨es, i2, j2⟩ := w
@@ -737,23 +1057,28 @@ theorem if_step (ifTok lp : Tok) (c : SOr) (rp lb : Tok) (body : List SStmt) (rb
         simp only [printElse, List.cons_append, List.append_assoc, List.nil_append]
         psimp [bt g1, bt g2, ih.block env sn lb2 s B C i2 j2 body2 [] {} rb2 (t :: tl) g4 g3 (by omega)]
         simp only [elabElse, lastElse]
-        cases elabL (substC s.constants) B C true body2 i2 j2 with
+        cases elabL env (substC s.constants) B C true body2 i2 j2 with
         | error e => rfl
         | ok u => obtain ⟨b2, i3, j3⟩ := u; rfl
 
-theorem while_step (w lp : Tok) (c : SOr) (rp lb : Tok) (body : List SStmt) (rb : Tok) (rest : List Tok)
+theorem while_step (w lp : Tok) (c : SCond) (rp lb : Tok) (body : List SStmt) (rb : Tok) (rest : List Tok)
     (hx : swfS (.while_ w lp c rp lb body rb) = true) (hf : needS (.while_ w lp c rp lb body rb) ≤ n + 2) :
     (parseWhileStatement env sn (n + 1)).run (S s (printS (.while_ w lp c rp lb body rb) ++ rest) B C i j) =
       outS s (rb :: rest) B C
-        (elabS (substC s.constants) B C (isRB rest) (.while_ w lp c rp lb body rb) i j) := by
+        (elabS env (substC s.constants) B C (isRB rest) (.while_ w lp c rp lb body rb) i j) := by
   simp only [swfS, Bool.and_eq_true, beq_iff_eq] at hx
-  obtain ⟨⟨⟨⟨⟨h1, h2⟩, h3⟩, h4⟩, h5⟩, h6⟩ := hx
+  obtain ⟨⟨⟨⟨⟨⟨h1, h2⟩, h3⟩, h4⟩, h5⟩, h6⟩, h7⟩ := hx
   simp only [needS] at hf
   rw [parseWhileStatement]
   simp only [printS, elabS, List.cons_append, List.append_assoc, List.nil_append]
   psimp [run_newSid_S, run_pushBreak_S, run_pushContinue_S,
-    ih.cond1 env sn false s (i :: B) (i :: C) (i + 1) j w lp c rp lb body rb rest h2 h3 h4 h5 h6 (by omega)]
-  cases elabL (substC s.constants) (i :: B) (i :: C) true body (i + 1) j with
+    ih.cond1 env sn false s (i :: B) (i :: C) (i + 1) j w lp c rp lb body rb rest h2 h3 h4 h5 h6 h7 (by omega)]
+  cases elabCond env (substC s.constants) c j with
+  | error e => rfl
+  | ok u =>
+  obtain ⟨ct, j0⟩ := u
+  simp only
+  cases elabL env (substC s.constants) (i :: B) (i :: C) true body (i + 1) j0 with
   | error e => rfl
   | ok v =>
     obtain ⟨a, i1, j1⟩ := v
@@ -765,7 +1090,7 @@ theorem whileInf_step (w lb : Tok) (body : List SStmt) (rb : Tok) (rest : List T
     (hx : swfS (.whileInf w lb body rb) = true) (hf : needS (.whileInf w lb body rb) ≤ n + 2) :
     (parseWhileStatement env sn (n + 1)).run (S s (printS (.whileInf w lb body rb) ++ rest) B C i j) =
       outS s (rb :: rest) B C
-        (elabS (substC s.constants) B C (isRB rest) (.whileInf w lb body rb) i j) := by
+        (elabS env (substC s.constants) B C (isRB rest) (.whileInf w lb body rb) i j) := by
   simp only [swfS, Bool.and_eq_true, beq_iff_eq] at hx
   obtain ⟨⟨⟨h1, h2⟩, h3⟩, h4⟩ := hx
   simp only [needS] at hf
@@ -773,7 +1098,7 @@ theorem whileInf_step (w lb : Tok) (body : List SStmt) (rb : Tok) (rest : List T
   simp only [printS, elabS, List.cons_append, List.append_assoc, List.nil_append]
   psimp [run_newSid_S, run_pushBreak_S, run_pushContinue_S,
     ih.cond0 env sn s (i :: B) (i :: C) (i + 1) j w lb body rb rest h2 h3 h4 (by omega)]
-  cases elabL (substC s.constants) (i :: B) (i :: C) true body (i + 1) j with
+  cases elabL env (substC s.constants) (i :: B) (i :: C) true body (i + 1) j with
   | error e => rfl
   | ok v =>
     obtain ⟨a, i1, j1⟩ := v
@@ -781,22 +1106,22 @@ theorem whileInf_step (w lb : Tok) (body : List SStmt) (rb : Tok) (rest : List T
     psimp [run_popBreak_S, run_popContinue_S]
     rfl
 
-theorem doWhile_step (d lb : Tok) (body : List SStmt) (rb w lp : Tok) (c : SOr) (rp : Tok)
+theorem doWhile_step (d lb : Tok) (body : List SStmt) (rb w lp : Tok) (c : SCond) (rp : Tok)
     (rest : List Tok) (hx : swfS (.doWhile d lb body rb w lp c rp) = true)
     (hf : needS (.doWhile d lb body rb w lp c rp) ≤ n + 2) :
     (parseDoWhileStatement env sn (n + 1)).run
         (S s (printS (.doWhile d lb body rb w lp c rp) ++ rest) B C i j) =
       outS s (rp :: rest) B C
-        (elabS (substC s.constants) B C (isRB rest) (.doWhile d lb body rb w lp c rp) i j) := by
+        (elabS env (substC s.constants) B C (isRB rest) (.doWhile d lb body rb w lp c rp) i j) := by
   simp only [swfS, Bool.and_eq_true, beq_iff_eq] at hx
   obtain ⟨⟨⟨⟨⟨⟨h1, h2⟩, h3⟩, h4⟩, h5⟩, h6⟩, h7⟩ := hx
   simp only [needS] at hf
   rw [parseDoWhileStatement]
   simp only [printS, elabS, List.cons_append, List.append_assoc, List.nil_append]
   psimp [run_newSid_S, run_pushBreak_S, run_pushContinue_S, bt h2,
-    ih.block env sn lb s (i :: B) (i :: C) (i + 1) j body [] {} rb (w :: lp :: (printOr c ++ rp :: rest)) h7 h3
+    ih.block env sn lb s (i :: B) (i :: C) (i + 1) j body [] {} rb (w :: lp :: (printCond c ++ rp :: rest)) h7 h3
       (by omega)]
-  cases elabL (substC s.constants) (i :: B) (i :: C) true body (i + 1) j with
+  cases elabL env (substC s.constants) (i :: B) (i :: C) true body (i + 1) j with
   | error e => rfl
   | ok v =>
     obtain ⟨a, i1, j1⟩ := v
@@ -843,7 +1168,7 @@ theorem cases_step (brace : Tok) (acc : List SwitchCase) (seen : List String) (h
     (hf : needCases cs ≤ n + 1) :
     (parseSwitchCases env sn brace (n + 1) acc seen hd {}).run (S s (printCases cs ++ rb :: rest) B C i j) =
       outK s (rb :: rest) B C acc (hd || cs.any SCase.isDflt)
-        (elabCases (substC s.constants) B C cs seen hd i j) := by
+        (elabCases env (substC s.constants) B C cs seen hd i j) := by
   cases cs with
   | nil =>
     rw [step_done env sn brace n acc seen hd {} _ (by simp [printCases, S_toks, hrb])]
@@ -876,14 +1201,14 @@ theorem cases_step (brace : Tok) (acc : List SwitchCase) (seen : List String) (h
         simp only [hdup', Bool.false_eq_true, if_false]
         simp only [st_S, hp]
         rw [ih.swblock env sn brace s B C i j body [] {} c' tl' h4 hc' (by omega), hce]
-        cases elabL (substC s.constants) B C r.isEmpty body i j with
+        cases elabL env (substC s.constants) B C r.isEmpty body i j with
         | error e => rfl
         | ok v =>
           obtain ⟨a, i1, j1⟩ := v
           simp only [outB, afterBody, List.nil_append, imp_add_empty, ← hp, vals_case, tok_case, isDefault_case,
             Bool.or_false]
           rw [ih.cases env sn brace s B C i1 j1 _ _ _ r rb rest h5 hrb (by omega)]
-          cases elabCases (substC s.constants) B C r (caseValue (substC s.constants) vs :: seen) hd i1 j1 with
+          cases elabCases env (substC s.constants) B C r (caseValue (substC s.constants) vs :: seen) hd i1 j1 with
           | error e => rfl
           | ok w =>
             obtain ⟨cs', i2, j2⟩ := w
@@ -907,14 +1232,14 @@ theorem cases_step (brace : Tok) (acc : List SwitchCase) (seen : List String) (h
         simp only [Bool.false_eq_true, if_false]
         simp only [st_S, hp]
         rw [ih.swblock env sn brace s B C i j body [] {} c' tl' h4 hc' (by omega), hce]
-        cases elabL (substC s.constants) B C r.isEmpty body i j with
+        cases elabL env (substC s.constants) B C r.isEmpty body i j with
         | error e => rfl
         | ok v =>
           obtain ⟨a, i1, j1⟩ := v
           simp only [outB, afterBody, List.nil_append, imp_add_empty, ← hp, vals_dflt, tok_dflt, isDefault_dflt,
             Bool.or_true, Bool.false_or]
           rw [ih.cases env sn brace s B C i1 j1 _ _ _ r rb rest h5 hrb (by omega)]
-          cases elabCases (substC s.constants) B C r seen true i1 j1 with
+          cases elabCases env (substC s.constants) B C r seen true i1 j1 with
           | error e => rfl
           | ok w =>
             obtain ⟨cs', i2, j2⟩ := w
@@ -926,7 +1251,7 @@ theorem switch_step (sw lp v lp2 : Tok) (ops : List Tok) (rp2 rp lb : Tok) (cs :
     (parseSwitchStatement env sn (n + 1)).run
         (S s (printS (.switch_ sw lp v lp2 ops rp2 rp lb cs rb) ++ rest) B C i j) =
       outS s (rb :: rest) B C
-        (elabS (substC s.constants) B C (isRB rest) (.switch_ sw lp v lp2 ops rp2 rp lb cs rb) i j) := by
+        (elabS env (substC s.constants) B C (isRB rest) (.switch_ sw lp v lp2 ops rp2 rp lb cs rb) i j) := by
   simp only [swfS, Bool.and_eq_true, beq_iff_eq, List.all_eq_true, operandTok, bne_iff_ne] at hx
   obtain ⟨⟨⟨⟨⟨⟨⟨⟨⟨h1, h2⟩, h3⟩, h4⟩, h5⟩, h6⟩, h7⟩, h8⟩, h9⟩, h10⟩ := hx
   simp only [needS] at hf
@@ -943,7 +1268,7 @@ theorem switch_step (sw lp v lp2 : Tok) (ops : List Tok) (rp2 rp lb : Tok) (cs :
     ((parseSwitchCases env sn lb n [] [] false {}).run (S s (printCases cs ++ rb :: rest) (i :: B) C (i + 1) j)) = _
   rw [ih.cases env sn lb s (i :: B) C (i + 1) j [] [] false cs rb rest h10 h9 (by omega)]
   simp only [elabS]
-  cases elabCases (substC s.constants) (i :: B) C cs [] false (i + 1) j with
+  cases elabCases env (substC s.constants) (i :: B) C cs [] false (i + 1) j with
   | error e => rfl
   | ok w =>
     obtain ⟨cs', i1, j1⟩ := w
@@ -951,6 +1276,307 @@ theorem switch_step (sw lp v lp2 : Tok) (ops : List Tok) (rp2 rp lb : Tok) (cs :
     cases cs' with
     | nil => rfl
     | cons k r => rfl
+
+/-! #### `switch` on an auto-var command -/
+
+omit ih in
+/-- `autoFinish` (the choice of the compared variable / the bad-position error) in closed form. -/
+theorem autoFinish_eq (av : AutoVar) (name : Tok) (cmd : Cmd) (imp : ImpData) (s' : PState) :
+    autoFinish av name ((cmd, imp), s') =
+      match autoPosBad av cmd.args.length with
+      | some pos =>
+        .error (newRangeParseError name (s'.toks.headD s'.eof) (badPosMsg name.lit pos cmd.args.length))
+      | none => .ok (some (operandName av cmd.args, cmd, imp), s') := by
+  unfold autoFinish autoPosBad operandName
+  cases av.argPos with
+  | none => rfl
+  | some pos =>
+    simp only
+    by_cases h : (pos < 0 || pos > (cmd.args.length : Int) - 1) = true
+    · simp only [h, if_true]
+    · simp only [h]; rfl
+
+omit ih in
+/-- `expectPeekVarOrAutoVar` on `( name ( a0 , … )`. -/
+theorem epv_S (pre name lp2 : Tok) (a0 : List Tok) (more : List (Tok × List Tok)) (rp2 : Tok)
+    (rest : List Tok) (hname : name.type = .IDENT) (hlp2 : lp2.type = .LPAREN) (hrp2 : rp2.type = .RPAREN)
+    (h0 : ArgOK a0) (hm : ∀ p ∈ more, p.1.type = .COMMA ∧ ArgOK p.2) (fuel : Nat)
+    (hf : a0.length + (printMore more).length + 1 ≤ fuel) :
+    (expectPeekVarOrAutoVar env sn fuel).run
+        (S s (pre :: (printCmd name lp2 a0 more rp2 ++ rest)) B C i j) =
+      match env.autoVars.lookup name.lit with
+      | none => .error (notAutoVarErr name)
+      | some av =>
+        match autoPosBad av (more.length + 1) with
+        | some pos => .error (badPosErr name rp2 pos (more.length + 1))
+        | none =>
+          .ok (some (operandName av ((a0 :: more.map (·.2)).map (renderArg (substC s.constants))),
+                ({ id := j, tok := name, name := name.lit,
+                   args := (a0 :: more.map (·.2)).map (renderArg (substC s.constants)) } : Cmd), {}),
+            S s (rp2 :: rest) B C i (j + 1)) := by
+  have hnv : name.type ≠ .VAR := by rw [hname]; decide
+  cases hav : env.autoVars.lookup name.lit with
+  | none =>
+    unfold expectPeekVarOrAutoVar
+    simp only [printCmd, List.cons_append]
+    psimp [bf hnv, hav]
+    rfl
+  | some av =>
+    have hw : S s (pre :: (printCmd name lp2 a0 more rp2 ++ rest)) B C i j =
+        st (S s [] B C i j) (pre :: name :: (lp2 :: (a0 ++ (printMore more ++ [rp2])) ++ rest)) := by
+      simp [printCmd, st_S]
+    have hw2 : st (S s [] B C i j) (name :: (lp2 :: (a0 ++ (printMore more ++ [rp2])) ++ rest)) =
+        S s (printCmd name lp2 a0 more rp2 ++ rest) B C i j := by
+      simp [printCmd, st_S]
+    rw [hw, epv_auto env sn fuel (S s [] B C i j) pre name _ av hnv hav, hw2,
+      cmd_S env sn s B C i j name lp2 a0 more rp2 rest hlp2 hrp2 h0 hm fuel hf]
+    simp only [autoFinish_eq, List.length_map, List.length_cons, S_toks, S_eof, List.headD_cons]
+    cases autoPosBad av (more.length + 1) with
+    | none => rfl
+    | some pos => rfl
+
+theorem switchA_step (sw lp name lp2 : Tok) (a0 : List Tok) (more : List (Tok × List Tok))
+    (rp2 rp lb : Tok) (cs : List SCase) (rb : Tok) (rest : List Tok)
+    (hx : swfS (.switchA sw lp name lp2 a0 more rp2 rp lb cs rb) = true)
+    (hf : needS (.switchA sw lp name lp2 a0 more rp2 rp lb cs rb) ≤ n + 2) :
+    (parseSwitchStatement env sn (n + 1)).run
+        (S s (printS (.switchA sw lp name lp2 a0 more rp2 rp lb cs rb) ++ rest) B C i j) =
+      outS s (rb :: rest) B C
+        (elabS env (substC s.constants) B C (isRB rest) (.switchA sw lp name lp2 a0 more rp2 rp lb cs rb)
+          i j) := by
+  simp only [swfS, Bool.and_eq_true, beq_iff_eq, decide_eq_true_eq, List.all_eq_true] at hx
+  obtain ⟨⟨⟨⟨⟨⟨⟨⟨⟨⟨h1, h2⟩, h3⟩, h4⟩, h5⟩, h6⟩, h7⟩, h8⟩, h9⟩, h10⟩, h11⟩ := hx
+  simp only [needS] at hf
+  have hw : printS (.switchA sw lp name lp2 a0 more rp2 rp lb cs rb) ++ rest =
+      sw :: lp :: (printCmd name lp2 a0 more rp2 ++ rp :: lb :: (printCases cs ++ rb :: rest)) := by
+    simp [printS]
+  rw [hw, parseSwitchStatement]
+  psimp [run_newSid_S, run_pushBreak_S, bt h2,
+    epv_S env sn s (i :: B) C (i + 1) j lp name lp2 a0 more rp2 (rp :: lb :: (printCases cs ++ rb :: rest))
+      h3 h4 h7 h5 h6 n (by omega)]
+  simp only [elabS]
+  cases env.autoVars.lookup name.lit with
+  | none => rfl
+  | some av =>
+    simp only
+    cases autoPosBad av (more.length + 1) with
+    | some pos => rfl
+    | none =>
+      simp only [ex_bind_ok]
+      psimp [bt h8, bt h9,
+        ih.cases env sn lb s (i :: B) C (i + 1) (j + 1) [] [] false cs rb rest h11 h10 (by omega)]
+      cases elabCases env (substC s.constants) (i :: B) C cs [] false (i + 1) (j + 1) with
+      | error e => rfl
+      | ok w =>
+        obtain ⟨cs', i1, j1⟩ := w
+        simp only [outK, ex_bind_ok, List.nil_append]
+        psimp [run_popBreak_S]
+        cases cs' with
+        | nil => rfl
+        | cons k r => rfl
+
+/-! #### poryswitch -/
+
+/-- The statement at the head of a poryswitch case (`poryswitch` is dispatched directly). -/
+theorem dispatch_step (x : SStmt) (rest : List Tok) (hx : swfS x = true) (hfol : Fol rest)
+    (hf : needS x ≤ n) :
+    (stmtOrPory env sn n (S s (printS x ++ rest) B C i j)).run (S s (printS x ++ rest) B C i j) =
+      outS s (lastS x :: rest) B C (elabS env (substC s.constants) B C (isRB rest) x i j) := by
+  obtain ⟨t, tl, hp, ht⟩ := printS_head x hx
+  have hh : (S s (printS x ++ rest) B C i j).toks.headD (S s (printS x ++ rest) B C i j).eof = t := by
+    simp [S_toks, hp]
+  unfold stmtOrPory
+  rw [hh, head_isPory x hx t tl hp]
+  cases x <;> simp only [isPory, if_true, Bool.false_eq_true, if_false]
+  case pory ps lp x' rp lb cs rb =>
+    exact ih.pory env sn s B C i j ps lp x' rp lb cs rb rest hx (by omega)
+  all_goals exact ih.stmt env sn s B C i j _ rest hx hfol hf
+
+theorem pstmts_step (b : List SStmt) (acc : List Stmt) (imp : ImpData) (rb : Tok)
+    (rest : List Tok) (hb : swfL b = true) (hrb : rb.type = .RBRACE) (hf : needL b ≤ n + 1) :
+    (parsePoryswitchStatements env sn true (n + 1) acc imp).run (S s (printL b ++ rb :: rest) B C i j) =
+      outB s (rb :: rest) B C acc imp (elabL env (substC s.constants) B C true b i j) := by
+  cases b with
+  | nil =>
+    rw [pstmts_nil env sn n _ true acc imp (by simp [printL, S_toks, hrb])]
+    simp [printL, elabL, outB]
+  | cons x r =>
+    simp only [swfL, Bool.and_eq_true] at hb
+    simp only [needL] at hf
+    obtain ⟨t, tl, hp, ht⟩ := printS_head x hb.1
+    have hne := startT_ne ht
+    have hfol := fol_printL r hb.2 rb rest (by simp [closeT, hrb])
+    have h1 := dispatch_step ih env sn s B C i j x (printL r ++ rb :: rest) hb.1 hfol (by omega)
+    rw [isRB_printL r hb.2] at h1
+    have hw : printL (x :: r) ++ rb :: rest = printS x ++ (printL r ++ rb :: rest) := by
+      simp [printL]
+    rw [hw, pstmts_cons env sn n _ true acc imp (by simp [S_toks, hp, hne.1]), h1]
+    simp only [elabL, bt hrb]
+    cases elabS env (substC s.constants) B C (r.isEmpty && true) x i j with
+    | error e => rfl
+    | ok v =>
+      obtain ⟨a, i1, j1⟩ := v
+      simp only [outS, S_toks, st_S, List.tail_cons, add_nil, if_true]
+      rw [ih.pstmts env sn s B C i1 j1 r (acc ++ a) imp rb rest hb.2 hrb (by omega)]
+      cases elabL env (substC s.constants) B C true r i1 j1 with
+      | error e => rfl
+      | ok w => obtain ⟨b', i2, j2⟩ := w; simp [outB]
+
+theorem pstmt1_step (x : SStmt) (rest : List Tok) (hx : swfS x = true) (hfol : Fol rest)
+    (hf : needS x + 1 ≤ n + 1) :
+    (parsePoryswitchStatements env sn false (n + 1) [] {}).run (S s (printS x ++ rest) B C i j) =
+      outB s rest B C [] {} (elabS env (substC s.constants) B C (isRB rest) x i j) := by
+  obtain ⟨t, tl, hp, ht⟩ := printS_head x hx
+  have hne := startT_ne ht
+  rw [pstmts_cons env sn n _ false [] {} (by simp [S_toks, hp, hne.1]),
+    dispatch_step ih env sn s B C i j x rest hx hfol (by omega)]
+  cases elabS env (substC s.constants) B C (isRB rest) x i j with
+  | error e => rfl
+  | ok v =>
+    obtain ⟨a, i1, j1⟩ := v
+    simp [outS, outB, S_toks, st_S]
+
+omit ih in
+theorem printPCases_head (r : List SPCase) (h : swfPCases r = true) (rb : Tok) (rest : List Tok)
+    (hrb : rb.type = .RBRACE) :
+    ∃ c tl, printPCases r ++ rb :: rest = c :: tl ∧ folT c = true ∧ (c.type == .RBRACE) = r.isEmpty := by
+  cases r with
+  | nil => exact ⟨rb, rest, by simp [printPCases], by simp [folT, closeT, hrb], by simp [hrb]⟩
+  | cons k r' =>
+    cases k with
+    | colon key c x =>
+      simp only [swfPCases, swfPCase, Bool.and_eq_true, beq_iff_eq, Bool.or_eq_true] at h
+      refine ⟨key, _, by simp only [printPCases, printPCase, List.cons_append]; rfl, ?_, ?_⟩
+      · rcases h.1.1.1 with hk | hk <;> simp [folT, startT, hk]
+      · rcases h.1.1.1 with hk | hk <;> simp [hk]
+    | brace key lb body rb' =>
+      simp only [swfPCases, swfPCase, Bool.and_eq_true, beq_iff_eq, Bool.or_eq_true] at h
+      refine ⟨key, _, by simp only [printPCases, printPCase, List.cons_append]; rfl, ?_, ?_⟩
+      · rcases h.1.1.1.1 with hk | hk <;> simp [folT, startT, hk]
+      · rcases h.1.1.1.1 with hk | hk <;> simp [hk]
+
+theorem pcases_step (startTok : Tok) (acc : List (String × List Stmt × ImpData)) (cs : List SPCase)
+    (rb : Tok) (rest : List Tok) (hcs : swfPCases cs = true) (hrb : rb.type = .RBRACE)
+    (hf : needPCases cs ≤ n + 1) :
+    (parsePoryswitchStatementCases env sn startTok (n + 1) acc).run
+        (S s (printPCases cs ++ rb :: rest) B C i j) =
+      outP s (rb :: rest) B C (elabPCases env (substC s.constants) B C cs acc i j) := by
+  cases cs with
+  | nil =>
+    rw [pcases_nil env sn n _ startTok acc (by simp [printPCases, S_toks, hrb])]
+    simp [printPCases, elabPCases, outP]
+  | cons k r =>
+    cases k with
+    | colon key c x =>
+      simp only [swfPCases, swfPCase, Bool.and_eq_true, beq_iff_eq, Bool.or_eq_true] at hcs
+      obtain ⟨⟨⟨h1, h2⟩, h3⟩, h4⟩ := hcs
+      simp only [needPCases] at hf
+      obtain ⟨c', tl', hp, hc', hce⟩ := printPCases_head r h4 rb rest hrb
+      have hw : printPCases (SPCase.colon key c x :: r) ++ rb :: rest =
+          key :: c :: (printS x ++ (printPCases r ++ rb :: rest)) := by
+        simp [printPCases, printPCase]
+      rw [hw, pcases_colon env sn n startTok acc s B C i j key c _ h1 h2,
+        ih.pstmt1 env sn s B C i j x (printPCases r ++ rb :: rest) h3 ⟨c', tl', hp, hc'⟩ (by omega)]
+      simp only [elabPCases]
+      have hrbq : isRB (printPCases r ++ rb :: rest) = r.isEmpty := by rw [hp]; exact hce
+      rw [hrbq]
+      cases elabS env (substC s.constants) B C r.isEmpty x i j with
+      | error e => rfl
+      | ok v =>
+        obtain ⟨a, i1, j1⟩ := v
+        simp only [outB, List.nil_append]
+        exact ih.pcases env sn startTok s B C i1 j1 _ r rb rest h4 hrb (by omega)
+    | brace key lb body rb' =>
+      simp only [swfPCases, swfPCase, Bool.and_eq_true, beq_iff_eq, Bool.or_eq_true] at hcs
+      obtain ⟨⟨⟨⟨h1, h2⟩, h3⟩, h5⟩, h4⟩ := hcs
+      simp only [needPCases] at hf
+      have hw : printPCases (SPCase.brace key lb body rb' :: r) ++ rb :: rest =
+          key :: lb :: (printL body ++ rb' :: (printPCases r ++ rb :: rest)) := by
+        simp [printPCases, printPCase]
+      rw [hw, pcases_brace env sn n startTok acc s B C i j key lb _ h1 h2,
+        ih.pstmts env sn s B C i j body [] {} rb' (printPCases r ++ rb :: rest) h5 h3 (by omega)]
+      simp only [elabPCases]
+      cases elabL env (substC s.constants) B C true body i j with
+      | error e => rfl
+      | ok v =>
+        obtain ⟨a, i1, j1⟩ := v
+        simp only [outB, List.nil_append, S_toks, S_eof, List.headD_cons, bt h3, if_true, st_S, List.tail_cons]
+        exact ih.pcases env sn startTok s B C i1 j1 _ r rb rest h4 hrb (by omega)
+
+omit ih in
+/-- Every entry of the table of poryswitch cases carries no implicit data (in the covered grammar). -/
+theorem elabPCases_imp (σ : String → String) (cs : List SPCase) :
+    ∀ (acc : List (String × List Stmt × ImpData)) (i j : Nat) (table : List (String × List Stmt × ImpData))
+      (i1 j1 : Nat), elabPCases env σ B C cs acc i j = .ok (table, i1, j1) →
+      (∀ e ∈ acc, e.2.2 = ({} : ImpData)) → ∀ e ∈ table, e.2.2 = ({} : ImpData) := by
+  induction cs with
+  | nil =>
+    intro acc i j table i1 j1 h hacc
+    simp only [elabPCases] at h
+    cases h; exact hacc
+  | cons k r ih =>
+    intro acc i j table i1 j1 h hacc
+    cases k with
+    | colon key c x =>
+      simp only [elabPCases] at h
+      split at h
+      · cases h
+      · exact ih _ _ _ _ _ _ h (fun e he => by
+          rcases List.mem_cons.mp he with rfl | he
+          · rfl
+          · exact hacc e he)
+    | brace key lb body rb' =>
+      simp only [elabPCases] at h
+      split at h
+      · cases h
+      · exact ih _ _ _ _ _ _ h (fun e he => by
+          rcases List.mem_cons.mp he with rfl | he
+          · rfl
+          · exact hacc e he)
+
+theorem pory_step (ps lp x rp lb : Tok) (cs : List SPCase) (rb : Tok) (rest : List Tok)
+    (hx : swfS (.pory ps lp x rp lb cs rb) = true) (hf : needS (.pory ps lp x rp lb cs rb) ≤ n + 2) :
+    (parsePoryswitchStatement env sn (n + 1)).run (S s (printS (.pory ps lp x rp lb cs rb) ++ rest) B C i j) =
+      outS s (rb :: rest) B C
+        (elabS env (substC s.constants) B C (isRB rest) (.pory ps lp x rp lb cs rb) i j) := by
+  simp only [swfS, Bool.and_eq_true, beq_iff_eq] at hx
+  obtain ⟨⟨⟨⟨⟨⟨h1, h2⟩, h3⟩, h4⟩, h5⟩, h6⟩, h7⟩ := hx
+  simp only [needS] at hf
+  rw [parsePoryswitchStatement]
+  simp only [printS, elabS, List.cons_append, List.append_assoc, List.nil_append]
+  psimp [header_S env s B C i j ps lp x rp lb (printPCases cs ++ rb :: rest) h2 h3 h4 h5]
+  have hh : hdrErr env ps x =
+      (if (env.envErrors && env.switches.isEmpty) = true then some (noSwitchesErr ps)
+       else if (env.envErrors && (env.switches.lookup x.lit).isNone) = true then some (undefinedSwitchErr x)
+       else none) := rfl
+  rw [hh]
+  by_cases g1 : (env.envErrors && env.switches.isEmpty) = true
+  · simp only [g1, if_true]; rfl
+  · simp only [g1]
+    by_cases g2 : (env.envErrors && (env.switches.lookup x.lit).isNone) = true
+    · simp only [g2, if_true]; rfl
+    · simp only [g2]
+      simp only [Bool.false_eq_true, if_false, ex_bind_ok]
+      rw [ih.pcases env sn _ s B C i j [] cs rb rest h7 h6 (by omega)]
+      cases hel : elabPCases env (substC s.constants) B C cs [] i j with
+      | error e => rfl
+      | ok v =>
+        obtain ⟨table, i1, j1⟩ := v
+        simp only [outP, ex_bind_ok]
+        cases hsel : selectCase env table (swVal env x.lit) with
+        | some r =>
+          obtain ⟨k, hk⟩ := selectCase_mem hsel
+          have himp := elabPCases_imp env B C (substC s.constants) cs [] i j table i1 j1 hel
+            (fun e he => absurd he List.not_mem_nil) _ hk
+          obtain ⟨r1, r2⟩ := r
+          simp only at himp
+          subst himp
+          rfl
+        | none =>
+          simp only
+          cases env.envErrors with
+          | true => rfl
+          | false => rfl
 
 end
 /-! ### the induction on fuel -/
@@ -965,6 +1591,11 @@ theorem needCases_pos (cs : List SCase) : 1 ≤ needCases cs := by
   cases cs with
   | nil => simp [needCases]
   | cons k r => cases k <;> simp only [needCases] <;> omega
+
+theorem needPCases_pos (cs : List SPCase) : 1 ≤ needPCases cs := by
+  cases cs with
+  | nil => simp [needPCases]
+  | cons k r => cases k <;> simp only [needPCases] <;> omega
 
 /-- **parse ∘ print = elaborate** for every function of the statement block, every fuel. -/
 theorem spec : ∀ n : Nat, Spec n
@@ -982,7 +1613,16 @@ theorem spec : ∀ n : Nat, Spec n
         intro _ _ _ _ _ _ _ _ _ body _ _ _ _ _ _ _ hf
         simp only [needS] at hf; have := needL_pos body; omega
       cases := by intro _ _ _ _ _ _ _ _ _ _ _ cs _ _ _ _ hf; have := needCases_pos cs; omega
-      switch := by intro _ _ _ _ _ _ _ _ _ _ _ _ _ _ _ _ _ _ _ hf; simp only [needS] at hf; omega }
+      switch := by intro _ _ _ _ _ _ _ _ _ _ _ _ _ _ _ _ _ _ _ hf; simp only [needS] at hf; omega
+      switchA := by
+        intro _ _ _ _ _ _ _ _ _ _ _ _ _ _ _ _ cs _ _ _ hf
+        simp only [needS] at hf; omega
+      pory := by
+        intro _ _ _ _ _ _ _ _ _ _ _ _ cs _ _ _ hf
+        simp only [needS] at hf; have := needPCases_pos cs; omega
+      pcases := by intro _ _ _ _ _ _ _ _ _ cs _ _ _ _ hf; have := needPCases_pos cs; omega
+      pstmts := by intro _ _ _ _ _ _ _ b _ _ _ _ _ _ hf; have := needL_pos b; omega
+      pstmt1 := by intros; omega }
   | n + 1 =>
     have ih := spec n
     { stmt := fun env sn s B C i j x rest => stmt_step ih env sn s B C i j x rest
@@ -1003,7 +1643,15 @@ theorem spec : ∀ n : Nat, Spec n
       cases := fun env sn brace s B C i j acc seen hd cs rb rest =>
         cases_step ih env sn s B C i j brace acc seen hd cs rb rest
       switch := fun env sn s B C i j sw lp v lp2 ops rp2 rp lb cs rb rest =>
-        switch_step ih env sn s B C i j sw lp v lp2 ops rp2 rp lb cs rb rest }
+        switch_step ih env sn s B C i j sw lp v lp2 ops rp2 rp lb cs rb rest
+      switchA := fun env sn s B C i j sw lp name lp2 a0 more rp2 rp lb cs rb rest =>
+        switchA_step ih env sn s B C i j sw lp name lp2 a0 more rp2 rp lb cs rb rest
+      pory := fun env sn s B C i j ps lp x rp lb cs rb rest =>
+        pory_step ih env sn s B C i j ps lp x rp lb cs rb rest
+      pcases := fun env sn startTok s B C i j acc cs rb rest =>
+        pcases_step ih env sn s B C i j startTok acc cs rb rest
+      pstmts := fun env sn s B C i j b acc imp rb rest => pstmts_step ih env sn s B C i j b acc imp rb rest
+      pstmt1 := fun env sn s B C i j x rest => pstmt1_step ih env sn s B C i j x rest }
 
 /-! ### the main theorems -/
 
@@ -1017,7 +1665,7 @@ theorem parse_block_elab (env : Env) (sn : String) (startTok : Tok) (b : List SS
     (rest : List Tok) (hwf : SWF b) (hrb : rb.type = .RBRACE) (s : PState)
     (htoks : s.toks = printStmts b ++ rb :: rest) (fuel : Nat) (hfuel : needL b ≤ fuel) :
     (parseBlockStatement env sn startTok fuel [] {}).run s =
-      match elabE (ctxOf s) b with
+      match elabE env (ctxOf s) b with
       | .ok (stmts, c') =>
         .ok ((stmts, {}), { s with toks := rb :: rest, nextSid := c'.nextSid, nextCmdId := c'.nextCmdId })
       | .error e => .error e := by
@@ -1027,7 +1675,7 @@ theorem parse_block_elab (env : Env) (sn : String) (startTok : Tok) (b : List SS
   rw [h]
   unfold elabE ctxOf
   simp only
-  cases elabL (substC s.constants) s.breakStack s.continueStack true b s.nextSid s.nextCmdId with
+  cases elabL env (substC s.constants) s.breakStack s.continueStack true b s.nextSid s.nextCmdId with
   | error e => rfl
   | ok v => obtain ⟨a, i1, j1⟩ := v; rfl
 
@@ -1035,7 +1683,7 @@ theorem parse_block_elab (env : Env) (sn : String) (startTok : Tok) (b : List SS
 theorem parse_block_print (env : Env) (sn : String) (startTok : Tok) (b : List SStmt) (rb : Tok)
     (rest : List Tok) (hwf : SWF b) (hrb : rb.type = .RBRACE) (s : PState)
     (htoks : s.toks = printStmts b ++ rb :: rest) (fuel : Nat) (hfuel : needL b ≤ fuel)
-    (stmts : List Stmt) (c' : Ctx) (helab : elaborate (ctxOf s) b = some (stmts, c')) :
+    (stmts : List Stmt) (c' : Ctx) (helab : elaborate env (ctxOf s) b = some (stmts, c')) :
     (parseBlockStatement env sn startTok fuel [] {}).run s =
       .ok ((stmts, {}), { s with toks := rb :: rest, nextSid := c'.nextSid, nextCmdId := c'.nextCmdId }) ∧
     c'.breakStack = s.breakStack ∧ c'.continueStack = s.continueStack := by
@@ -1048,7 +1696,7 @@ first documented violation), so does the parser. -/
 theorem parse_block_reject (env : Env) (sn : String) (startTok : Tok) (b : List SStmt) (rb : Tok)
     (rest : List Tok) (hwf : SWF b) (hrb : rb.type = .RBRACE) (s : PState)
     (htoks : s.toks = printStmts b ++ rb :: rest) (fuel : Nat) (hfuel : needL b ≤ fuel)
-    (e : PFail) (helab : elabE (ctxOf s) b = .error e) :
+    (e : PFail) (helab : elabE env (ctxOf s) b = .error e) :
     (parseBlockStatement env sn startTok fuel [] {}).run s = .error e := by
   rw [parse_block_elab env sn startTok b rb rest hwf hrb s htoks fuel hfuel, helab]
 
@@ -1056,8 +1704,8 @@ theorem parse_block_reject (env : Env) (sn : String) (startTok : Tok) (b : List 
 theorem parse_block_reject_none (env : Env) (sn : String) (startTok : Tok) (b : List SStmt) (rb : Tok)
     (rest : List Tok) (hwf : SWF b) (hrb : rb.type = .RBRACE) (s : PState)
     (htoks : s.toks = printStmts b ++ rb :: rest) (fuel : Nat) (hfuel : needL b ≤ fuel)
-    (helab : elaborate (ctxOf s) b = none) :
-    ∃ e, elabE (ctxOf s) b = .error e ∧
+    (helab : elaborate env (ctxOf s) b = none) :
+    ∃ e, elabE env (ctxOf s) b = .error e ∧
       (parseBlockStatement env sn startTok fuel [] {}).run s = .error e := by
   obtain ⟨e, he⟩ := elaborate_none helab
   exact ⟨e, he, parse_block_reject env sn startTok b rb rest hwf hrb s htoks fuel hfuel e he⟩
@@ -1066,4 +1714,4 @@ theorem parse_block_reject_none (env : Env) (sn : String) (startTok : Tok) (b : 
 theorem fuel_of_tokens (b : List SStmt) (fuel : Nat) (h : 2 * (printStmts b).length + 1 ≤ fuel) :
     needL b ≤ fuel := Nat.le_trans (needL_le b) h
 
-end Pory.P1
+end Pory.StmtG
